@@ -35,6 +35,8 @@ class C05(Prop):
                 case["incMem"] = rng.random() < 0.5
                 case["prefix"] = draw_prefix(rng)
                 if k % 4 == 3:      # the second public entry point of the aggregator: user-annotation breakdown
+                    if not cfg.gpu_annotations:
+                        continue
                     case["entry"] = "anno"
                     case["gpu"] = rng.random() < 0.5
                     case["allow"] = rng.random() < 0.3
@@ -77,6 +79,23 @@ class C05(Prop):
                 obs["ranks"].append({"rank": r, "rows": [], "annos": annos})
             if not any(rk["annos"] for rk in obs["ranks"]):
                 return {"skip": True}
+            # beyond the listed property: each GPU kernel is attributed to the innermost ("leaf") GPU annotation of its stream it overlaps
+            obs["ka"], obs["gannos"], obs["kaErr"] = [], [], ""
+            try:
+                r0 = ranks[0]
+                kdf = ta.get_gpu_kernels_with_user_annotations(rank=r0, expand_names=False)
+                df0 = ta.t.get_trace(r0)
+                obs["gannos"] = [{"id": int(i), "name": st[int(n)], "ts": hta.ival(ts), "dur": hta.ival(du), "pid": hta.ival(p_), "tid": hta.ival(t_)}
+                                 for i, n, c, ts, du, p_, t_ in zip(df0["index"], df0["name"], df0["cat"], df0["ts"], df0["dur"], df0["pid"], df0["tid"])
+                                 if st[int(c)] == "gpu_user_annotation"]
+                if kdf is not None:
+                    for i, ts, du, p_, t_, ua in zip(kdf["index"], kdf["ts"], kdf["dur"], kdf["pid"], kdf["tid"], kdf["user_annotation"]):
+                        obs["ka"].append({"id": int(i), "ts": hta.ival(ts), "dur": hta.ival(du), "pid": hta.ival(p_), "tid": hta.ival(t_),
+                                          "anno": "" if int(ua) < 0 else st[int(ua)]})
+                elif obs["gannos"]:
+                    obs["kaErr"] = "returned None although GPU annotations exist"
+            except Exception as ex:
+                obs["kaErr"] = hta.exc_str(ex)
             try:
                 res = ta.get_gpu_user_annotation_breakdown(use_gpu_annotation=case["gpu"], visualize=False, duration_ratio=case["ratio"],
                                                            num_kernels=case["numK"], allowlist_patterns=["ProfilerStep", "my_region"] if case["allow"] else None)
